@@ -115,7 +115,18 @@ def D9():
         gf.detect_bursts_amp = orig
     return bool(calls), f'per-epoch re-labelling calls with a single shared option set: {len(calls)}'
 
-ALL = dict(D1=D1, D2=D2, D3=D3, D4=D4, D5=D5, D6=D6, D7=D7, D8=D8, D9=D9)
+def D11():
+    from bycycle import BycycleGroup
+    sigs = np.array([sig_fs(i, n=3000)[0] for i in range(3)])
+    bg = BycycleGroup(thresholds={'amp_fraction_threshold': 0.2, 'amp_consistency_threshold': .5, 'period_consistency_threshold': .5,
+                                  'monotonicity_threshold': .8, 'min_n_cycles': 3})
+    bg.fit(sigs, 500., (8, 12), n_jobs=1)
+    bg.recompute_edges(0.1)
+    stale = [i for i in range(3) if not bg.df_features[i].equals(bg.models[i].df_features)]
+    return bool(stale), f'positions where bg.df_features[i] is not bg.models[i].df_features after recompute_edges(0.1): {stale}'
+
+
+ALL = dict(D1=D1, D2=D2, D3=D3, D4=D4, D5=D5, D6=D6, D7=D7, D8=D8, D9=D9, D11=D11)
 if __name__ == '__main__':
     names = sys.argv[1:] or list(ALL)
     bad = 0
